@@ -1,5 +1,6 @@
 import Tmv.Gen.Facts
 import Tmv.Model.MConn
+import Tmv.Model.PeerMsgs
 /-! Expectations tying the C17 model to anchored source lines (facts are regenerated from /repo). -/
 namespace Tmv.Expect.C17
 
@@ -26,5 +27,21 @@ theorem default_constants :
 
 /-- the frame limit of the default configuration (channel id 0xff, EOF, 1024 data bytes) -/
 theorem default_frame_limit : MConn.maxPacketMsgSize MConn.defaultMaxPacketMsgPayloadSize = 1035 := by decide
+
+/-- `BitArray.ValidateBasic` compares `len(Elems)` with the number `Bits` requires (model:
+`BitArr.validateBasic`) and the three consensus validators call it -/
+theorem bitarray_validation :
+    Facts.bits_validate_elems_guard = "len(bA.Elems) != expected" ∧
+    Facts.cons_newValidBlock_validates_bits = true ∧ Facts.cons_proposalPOL_validates_bits = true ∧
+    Facts.cons_voteSetBits_validates_bits = true := by decide
+
+/-- `setIndex` returns early only on `i >= Bits` (model: `indexPanics`) -/
+theorem setIndex_guard : Facts.bits_setIndex_guard = "i >= bA.Bits" := by decide
+
+/-- `addVote` ignores a previous-height precommit when there is no `LastCommit` (initial height) -/
+theorem addVote_nil_lastcommit_guard : Facts.cons_addVote_nil_lastcommit_guard = "cs.LastCommit == nil" := by decide
+
+/-- the size limits the validators use -/
+theorem size_limits : PeerMsgs.maxVotesCount = 10000 ∧ PeerMsgs.maxBlockPartsCount = 1601 := by decide
 
 end Tmv.Expect.C17
